@@ -313,12 +313,18 @@ def run_check(mod, prop, tier, seed, a, t0):
                 refuted.append((t, v))
             else:
                 unknown.append({"task": t.name, "name": f"{t.name}.{v['name']}#{v['path']}", "detail": v["detail"]})
-    for (nm, ok, detail) in syn:
+    for item in syn:
+        (nm, ok, detail), soft = item[:3], (len(item) > 3 and item[3] == "soft")
         n_vc += 1
         names.add("syntactic." + nm)
         if ok:
             n_dis += 1
             backends["ast-scan"] = backends.get("ast-scan", 0) + 1
+        elif soft:
+            # a scan that only guards the applicability of the proof (e.g. "the constructor is a sequence of contracted
+            # operations"): when it fails the property is undecided by the deductive part, not refuted - a harmless
+            # refactoring must not raise an alarm; bounded parts still run and may refute it
+            unknown.append({"task": "syntactic", "name": "syntactic." + nm, "detail": "side condition of the proof not met: " + detail})
         else:
             refuted.append((None, {"name": "syntactic." + nm, "path": 0, "model": None, "detail": detail,
                                    "known": None, "status": "refuted", "backend": "ast-scan", "secs": 0}))
